@@ -88,6 +88,13 @@ def version_shapes():
     out.append(("versions:value-blank-runs", "~Version\nVERS. 2.0 : version\nWRAP. NO : wrap\n" + well20.replace(
         "COMP. ACME : company", "COMP. ACME  OIL     AND         GAS\tLTD : company").replace("WELL. W-1 : well", "LOC. 12-34-56     W5M : location\nWELL. W-1 : well")
         + body.replace("P1.U 3.5 : a parameter", "P1.U 3.5 : a parameter\nRMK. see     run  2 : remark     with  blanks")))
+    # index-curve unit x STRT/STOP/STEP units (present, absent, disagreeing)
+    for cu in ("", "M", "FT"):
+        for (u1, u2, u3) in (("M", "M", "M"), ("M", "", ""), ("M", "FT", ""), ("", "", "M"), ("", "", "")):
+            out.append(("units:curve=%s:strt=%s:stop=%s:step=%s" % (cu, u1, u2, u3),
+                        "~Version\nVERS. 2.0 : version\nWRAP. NO : wrap\n"
+                        + well20.replace("STRT.M", "STRT." + u1).replace("STOP.M", "STOP." + u2).replace("STEP.M", "STEP." + u3)
+                        + body.replace("DEPT.M : depth", "DEPT.%s : depth" % cu)))
     out.append(("other:inner-blank", "~Version\nVERS. 2.0 : version\nWRAP. NO : wrap\n" + well20 + body.replace("some text\n", "some text\n\n\nmore text\n")))
     return out
 
